@@ -478,7 +478,11 @@ func runC18(c *Ctx) {
 	of := OfferOf(dry, 0)
 	c.R.Class = fmt.Sprintf("%s/%s rand=%v/%d", f.Kind, f.IDI.Name, rs != nil, chunkMode)
 	var hellos []*wire.ClientHello
+	var connOf []int // which connection each hello belongs to (the two hellos around a HelloRetryRequest share one)
+	nextConn := 0
 	hellos = append(hellos, dry)
+	connOf = append(connOf, nextConn)
+	nextConn++
 	shareIdx := 0
 	if len(of.Shares) > 0 {
 		shareIdx = int(c.Run/2) % len(of.Shares)
@@ -503,10 +507,22 @@ func runC18(c *Ctx) {
 		}
 		scfg, stdcfg := ServerConfigs(plan)
 		var rcfg *refsrv.Config
+		// a stateless server: HelloRetryRequest with a cookie and no key_share, after which the server
+		// selects one of the (unchanged) shares - the private keys of all of them must survive the retry
+		cookieOnly := sel != 0 && sel != 0x6399 && ch.Bool(20, "cookie-only-hrr")
+		if cookieOnly {
+			peer = PeerRef
+			plan.Peer = PeerRef
+		}
 		if peer == PeerRef {
 			rcfg = refCfg()
 			rcfg.NextProtos = of.ALPN
 			rcfg.Byz.KyberDraft = true
+			if cookieOnly {
+				rcfg.CurvePreferences = []refsrv.CurveID{refsrv.CurveID(sel)}
+				rcfg.Byz.HRRCookie = []byte("stateless-cookie")
+				rcfg.Byz.HRRAlways, rcfg.Byz.HRRCookieOnly = true, true
+			}
 		}
 		sp := &ConnSpec{Name: fmt.Sprintf("c%d", i), ID: f.IDI.ID, Spec: f.Spec(), CCfg: negCfg(), Peer: peer, SCfg: scfg, StdCfg: stdcfg, RefCfg: rcfg, Payload: [][]byte{[]byte("ping")}}
 		// the hello may be built explicitly first (with or without session), once or twice: the keys
@@ -531,7 +547,11 @@ func runC18(c *Ctx) {
 			c.Violate("malformed-clienthello "+f.IDI.Name, "%v", obs.CHErr)
 			break
 		}
-		hellos = append(hellos, obs.CH...)
+		for _, h := range obs.CH {
+			hellos = append(hellos, h)
+			connOf = append(connOf, nextConn)
+		}
+		nextConn++
 		if sel != 0 {
 			c.R.NonTrivial = true
 			c.R.Class += fmt.Sprintf(" sel=%d", sel)
@@ -541,9 +561,12 @@ func runC18(c *Ctx) {
 				if o.ServerRejected() {
 					who = "server-rejected"
 				}
-				c.Violate(fmt.Sprintf("%s %s sel=%s %s", who, f.Kind, selClass(r), negErrClass(o)), "%s conn %d: selected group %d of shares %v: %s", c.R.Class, i, sel, of.Shares, o.Describe())
+				c.Violate(fmt.Sprintf("%s %s sel=%s cookie-only-hrr=%v %s", who, f.Kind, selClass(r), cookieOnly, negErrClass(o)), "%s conn %d: selected group %d of shares %v: %s", c.R.Class, i, sel, of.Shares, o.Describe())
 			} else {
-				if len(obs.SH) > 0 && obs.SH[0].IsHRR {
+				if cookieOnly {
+					c.Probe("cookie-only-hrr-completed")
+				}
+				if len(obs.SH) > 0 && obs.SH[0].IsHRR && !cookieOnly {
 					c.Violate("hrr-although-share-was-sent "+f.Kind, "%s: server asked for group %d again", c.R.Class, sel)
 				}
 				if string(o.CRead) != "ping" {
@@ -559,8 +582,11 @@ func runC18(c *Ctx) {
 			break
 		}
 		hellos = append(hellos, h)
+		connOf = append(connOf, nextConn)
+		nextConn++
 	}
 	c.Finish(w, true)
+	sameConn := func(_ []*wire.ClientHello, i, j int) bool { return connOf[i] == connOf[j] }
 	if c.R.Violation != nil {
 		return
 	}
